@@ -31,6 +31,12 @@ def _layout(n):
 
 @st.composite
 def _req(draw):
+    if draw(st.integers(0, 7)) == 0:
+        # a write that covers a whole table of some unit (tables have 6, 21, 39 or 40 cells)
+        n = draw(st.sampled_from([6, 6, 21, 39, 40]))
+        if draw(st.booleans()):
+            return ['req:16', {'address': 0, 'registers': [draw(st.integers(1, 0xFFFF))] * n}]
+        return ['req:15', {'address': 0, 'bits': [True] * n}]
     fc = draw(st.sampled_from([5, 6, 15, 16, 22, 23, 6, 16, 1, 3]))
     a = draw(st.sampled_from([0, 1, 5, 20, 38, 39, 40, 100]))
     if fc in (1, 3):
